@@ -13,21 +13,24 @@ theorem arrive_noEsc (c : SConn) (a : Arrival) (h : c.st.1.noEsc) : (c.arrive a)
   | bytes b => exact feed_noEsc c.st b h
   | closed => exact h
 
-theorem settle_ok (hs : List String) (r : ReqMsg → Bool) (c : SConn) (h : c.st.1.noEsc) :
+theorem settle_ok (hs : List String) (r : ReqMsg → Option Nat) (c : SConn) (h : c.st.1.noEsc) :
     ∃ c', c.settle hs r = .ok c' ∧ c'.st.1.noEsc := by
   unfold SConn.settle
+  have hf : (c.flush r).st.1.noEsc := h
+  generalize c.flush r = c1 at hf
+  simp only
   split
   · rename_i cls hp
-    simp [ReqSt.noEsc, ReqSt.escapedCls, hp] at h
-  · exact ⟨_, rfl, h⟩
-  · exact ⟨_, rfl, h⟩
+    simp [ReqSt.noEsc, ReqSt.escapedCls, hp] at hf
+  · exact ⟨_, rfl, hf⟩
+  · exact ⟨_, rfl, hf⟩
   · split
     · split
-      · exact ⟨_, rfl, h⟩
-      · exact ⟨_, rfl, h⟩
-    · exact ⟨_, rfl, h⟩
+      · exact ⟨_, rfl, hf⟩
+      · exact ⟨_, rfl, hf⟩
+    · exact ⟨_, rfl, hf⟩
 
-theorem serverConnStep_ok (hs : List String) (r : ReqMsg → Bool) (c : SConn) (a : Arrival) (h : c.st.1.noEsc) :
+theorem serverConnStep_ok (hs : List String) (r : ReqMsg → Option Nat) (c : SConn) (a : Arrival) (h : c.st.1.noEsc) :
     ∃ c', serverConnStep hs r c a = .ok c' ∧ c'.st.1.noEsc := by
   unfold serverConnStep
   by_cases ha : c.alive = true
@@ -37,7 +40,7 @@ theorem serverConnStep_ok (hs : List String) (r : ReqMsg → Bool) (c : SConn) (
       exact settle_ok hs r _ (arrive_noEsc c a h)
   · simp [ha]; exact h
 
-theorem entryStep_spec (hs : List String) (r : ReqMsg → Bool) (p : Entry) (h : p.1.st.1.noEsc) :
+theorem entryStep_spec (hs : List String) (r : ReqMsg → Option Nat) (p : Entry) (h : p.1.st.1.noEsc) :
     serverConnStep hs r p.1 (p.2.headD .nothing) = .ok (entryStep hs r p).1 ∧ (entryStep hs r p).1.st.1.noEsc ∧
     (entryStep hs r p).2 = p.2.tail := by
   obtain ⟨c', h1, h2⟩ := serverConnStep_ok hs r p.1 (p.2.headD .nothing) h
@@ -45,7 +48,7 @@ theorem entryStep_spec (hs : List String) (r : ReqMsg → Bool) (p : Entry) (h :
   rw [h1]
   exact ⟨rfl, h2, rfl⟩
 
-theorem serverCycle_eq (hs : List String) (r : ReqMsg → Bool) (t : List Entry) (h : ∀ p ∈ t, p.1.st.1.noEsc) :
+theorem serverCycle_eq (hs : List String) (r : ReqMsg → Option Nat) (t : List Entry) (h : ∀ p ∈ t, p.1.st.1.noEsc) :
     serverCycle hs r t = .ok (t.map (entryStep hs r)) := by
   induction t with
   | nil => rfl
@@ -60,10 +63,10 @@ theorem serverCycle_eq (hs : List String) (r : ReqMsg → Bool) (t : List Entry)
     congr 2
     exact Prod.ext rfl hp.2.2.symm
 
-theorem entryRun_succ (hs : List String) (r : ReqMsg → Bool) (n : Nat) (p : Entry) :
+theorem entryRun_succ (hs : List String) (r : ReqMsg → Option Nat) (n : Nat) (p : Entry) :
     entryRun hs r (n + 1) p = entryRun hs r n (entryStep hs r p) := rfl
 
-theorem serverRun_eq (hs : List String) (r : ReqMsg → Bool) (n : Nat) (t : List Entry) (h : ∀ p ∈ t, p.1.st.1.noEsc) :
+theorem serverRun_eq (hs : List String) (r : ReqMsg → Option Nat) (n : Nat) (t : List Entry) (h : ∀ p ∈ t, p.1.st.1.noEsc) :
     serverRun hs r n t = .ok (t.map (entryRun hs r n)) := by
   induction n generalizing t with
   | zero => simp [serverRun, entryRun]
